@@ -67,6 +67,10 @@ func (e *Enc) call(st *State, c *ssa.CallCommon, ins ssa.Instruction, deferred b
 		argTypes = append(argTypes, a.Type())
 	}
 	ct, key := e.calleeContract(c)
+	if op := lockOp(key); op != "" {
+		e.lockCall(st, op, c, ins)
+		return Val{}
+	}
 	sig := c.Signature()
 	var resTypes []types.Type
 	for i := 0; i < sig.Results().Len(); i++ {
@@ -588,6 +592,9 @@ func (e *Enc) builtin(st *State, b *ssa.Builtin, c *ssa.CallCommon, ins ssa.Inst
 			e.declStr()
 			return tv(app(SInt, "strlen", x.T))
 		case *types.Map:
+			if g, ok := e.guardedMaps[c.Args[0]]; ok {
+				e.lockAccess(st, g.heap, g.obj, false, "len")
+			}
 			r := e.def("maplen", e.mapLen(st, u, x.T))
 			e.assume(st.reach, Le(I(0), r))
 			return tv(r)
@@ -628,6 +635,9 @@ func (e *Enc) builtin(st *State, b *ssa.Builtin, c *ssa.CallCommon, ins ssa.Inst
 		ps := arrSort(SInt, arrSort(sortOf(mt.Key()), SBool))
 		hp := e.comp(st, mapPHeap(mt), ps)
 		e.frameCheckMap(st, ins, m)
+		if g, ok := e.guardedMaps[c.Args[0]]; ok {
+			e.lockAccess(st, g.heap, g.obj, true, "delete")
+		}
 		// deleting from a nil map is a no-op
 		st.heaps[mapPHeap(mt)] = e.def("h", Ite(Eq(m, I(0)), hp, Store(hp, m, Store(Select(hp, m), k, TFalse))))
 		return Val{}
